@@ -45,6 +45,9 @@ COUNTER_STEP = 1 << 16
 A_STEPS = ("A-STEPS: a 64-bit counter that starts below 2^62 and grows by at most 2^16 per executed increment cannot "
            "overflow: that would take more than 2^46 increments of one variable")
 
+# inferred struct-field invariants, filled by fieldinv.register(): (adt path, field name) -> (lo, hi)
+FIELD_RANGES = {}
+
 # ADT facts (enum discriminant values), filled by callers that have a Facts object: path -> [values]
 ADT_DISCRS = {}
 
@@ -229,6 +232,7 @@ class Intervals:
         self.in_states = {}
         self.visits = {}
         self.term_tr = {}        # memory term -> type range (learned when a typed read is seen)
+        self.term_field = {}     # memory term -> (adt, field) of its last projection
         self.converged = True
         self.used_steps_assumption = False
         self._counter_cache = {}
@@ -365,6 +369,9 @@ class Intervals:
         t = None
         if r is not None and r[2] and self._stable_or_tracked(r[0]):
             t = ("P", r[0], r[1]) if r[1] else r[0]
+            fk = self.place_field(p)
+            if fk is not None and not isinstance(t, int):
+                self.term_field.setdefault(t, fk)
         self._place_cache[key] = t
         return t
 
@@ -390,7 +397,22 @@ class Intervals:
             return self.tr[t]
         if t[0] == "L":
             return (0, ISIZE_MAX)
-        return self.term_tr.get(t)
+        tr = self.term_tr.get(t)
+        fk = self.term_field.get(t)
+        if fk is not None:
+            fr = FIELD_RANGES.get(fk)
+            if fr is not None:
+                tr = fr if tr is None else (clamp_to(fr, tr) if fr[0] <= tr[1] and fr[1] >= tr[0] else tr)
+        return tr
+
+    @staticmethod
+    def place_field(p):
+        """(adt, field) when the place ends in a named struct field"""
+        if p[1]:
+            last = p[1][-1]
+            if isinstance(last, list) and last[0] == "f" and len(last) > 3 and last[3] and last[2] is not None:
+                return (last[3], last[2])
+        return None
 
     def term_of(self, st, op):
         """term whose value the operand currently equals, or None"""
@@ -442,7 +464,24 @@ class Intervals:
         t = self.place_term(p)
         if t is not None and not isinstance(t, int):
             return self.trng(st, t)
+        fk = self.place_field(p)
+        if fk is not None:
+            return FIELD_RANGES.get(fk)
         return None
+
+    def state_before_stmt(self, bb, idx):
+        """state just before statement idx of block bb (None if unreachable)"""
+        if bb not in self.in_states:
+            return None
+        st = self.in_states[bb].copy()
+        for j, s in enumerate(self.body.blocks[bb].stmts):
+            if j >= idx:
+                break
+            if s[0] == "A":
+                self.assign(st, s[1], s[2], bb, j)
+            elif s[0] == "D":
+                st.kill(s[1][0])
+        return st
 
     def op_type(self, op):
         if op[0] == "k":
